@@ -190,9 +190,9 @@ pub fn def() -> PropDef {
         abort_possible: false,
         parts: |tier| {
             vec![
-                part("roundtrip", tier.pick(30_000, 800_000), proptest::collection::vec(any::<u8>(), 0..200).prop_map(|data| Case { data }), roundtrip),
-                part("parser_total", tier.pick(40_000, 1_000_000), proptest::collection::vec(any::<u8>(), 0..14), parser_total),
-                part("long_tokens", tier.pick(2_000, 20_000), (200u16..330, any::<u8>()), long_tokens),
+                part("roundtrip", tier.pick(30_000, 4_800_000), proptest::collection::vec(any::<u8>(), 0..200).prop_map(|data| Case { data }), roundtrip),
+                part("parser_total", tier.pick(40_000, 6_000_000), proptest::collection::vec(any::<u8>(), 0..14), parser_total),
+                part("long_tokens", tier.pick(2_000, 120_000), (200u16..330, any::<u8>()), long_tokens),
             ]
             .into_iter()
             .chain(if tier == Tier::Thorough { Some(part_fuzz("libfuzzer_c05_paths", "c05_paths", 2_000_000, 600)) } else { None })
